@@ -426,13 +426,13 @@ impl<'a> Lexer<'a> {
         Some(n)
     }
 
-    fn run(&mut self) -> Result<Option<String>, SynError> {
+    fn run(&mut self, allow_shebang: bool) -> Result<Option<String>, SynError> {
         // byte order mark
         if self.b.starts_with(&[0xEF, 0xBB, 0xBF]) {
             self.pos = 3;
         }
         let mut shebang = None;
-        if self.peek(0) == b'#' && !self.at_end() {
+        if allow_shebang && self.peek(0) == b'#' && !self.at_end() {
             let start = self.pos;
             let mut i = start;
             while i < self.b.len() && self.b[i] != b'\n' && self.b[i] != b'\r' {
@@ -518,6 +518,16 @@ impl<'a> Lexer<'a> {
 }
 
 pub fn lex(src: &str, mode: Mode) -> Result<LexOutput, SynError> {
+    lex_impl(src, mode, true)
+}
+
+/// Like [`lex`] but a leading `#` is the length operator, never a shebang line (for expression
+/// snippets).
+pub fn lex_no_shebang(src: &str, mode: Mode) -> Result<LexOutput, SynError> {
+    lex_impl(src, mode, false)
+}
+
+fn lex_impl(src: &str, mode: Mode, allow_shebang: bool) -> Result<LexOutput, SynError> {
     let mut lx = Lexer {
         src,
         b: src.as_bytes(),
@@ -528,7 +538,7 @@ pub fn lex(src: &str, mode: Mode) -> Result<LexOutput, SynError> {
         comments: Vec::new(),
         braces: Vec::new(),
     };
-    let shebang = lx.run()?;
+    let shebang = lx.run(allow_shebang)?;
     Ok(LexOutput { tokens: lx.tokens, comments: lx.comments, shebang })
 }
 
